@@ -181,6 +181,30 @@ def random_project(
     return spec
 
 
+def relativise_all(spec, parent_rel, rnd, prob=0.6):
+    """Rewrites absolute imports in ALL files: names below the directory `parent_rel` ('' = root) are written
+    relative to it ('import proj.a.x' -> 'import a.x').  Scanning each sub-directory of that parent as
+    module_path then sees the same written names in different roles (internal in one scan, external in another)."""
+    root = spec["root"]
+    parent = mod_of(root, parent_rel)
+    n = 0
+    for f, src in list(spec["files"].items()):
+        if not f.endswith(".py"):
+            continue
+        out = []
+        for line in src.split("\n"):
+            for kw in ("import ", "from "):
+                if line.startswith(kw + parent + ".") and rnd.random() < prob:
+                    rest = line[len(kw) + len(parent) + 1 :]
+                    if rest.split(" ")[0].split(".")[0].isidentifier():
+                        line = kw + rest
+                        n += 1
+                    break
+            out.append(line)
+        spec["files"][f] = "\n".join(out)
+    return n
+
+
 def relativise(spec, mp_rel, rnd, prob=0.6):
     """Rewrites (in place) some absolute imports of the files below module_path `mp_rel` so that they are
     written relative to module_path's parent directory (the second spelling C04 says must resolve):
